@@ -49,7 +49,9 @@ RULE = ("one case = one frame of one real mask (or one (N, R, L) triple with all
         "2-D sizes up to 128x128, accelerations 2..12 incl. non-integers, feasible centre fractions (+ an infeasible stream the "
         "code must reject or answer with the bare ACS), modes static/dynamic/multislice, several seeds. non-trivial = the frame "
         "samples at least one column/cell outside the ACS (or the case is an expected rejection); distinct = distinct protocol line")
-PENDING_FINDINGS: list[str] = []
+# the Cython kernel `_poisson` overruns its active list (size nx*ny, boundscheck off) when the sampling radius is ~1 and
+# max_attempts is large: segmentation fault instead of a mask or a ValueError (reported to the lead; C04 territory)
+PENDING_FINDINGS: list[str] = ["generator-crashes/VariableDensityPoisson"]
 MOD = "props.c07"
 DYADIC_R = [2.5, 5.5, 3.25, 7.75, 10.5]
 ENUM_R = [2, 3, 4, 5, 6, 7, 8, 9, 10, 11, 12, 2.5, 5.5]
@@ -365,7 +367,7 @@ _RUN: dict = {}
 
 def _run_cases(ctx: Ctx, store: dict):
     w = RC.Worker()
-    store["cases"], store["hangs"] = [], []
+    store["cases"], store["hangs"], store["crashes"] = [], [], []
     try:
         w.start()
         for c in gen_cases(ctx):
@@ -373,6 +375,11 @@ def _run_cases(ctx: Ctx, store: dict):
                 c["res"] = w.call(MOD, "job_case", {"conf": c["conf"], "shape": c["shape"], "seed": c["seed"]}, budget=60)
             except RC.Hang as e:
                 store["hangs"].append({"case": {k: c[k] for k in ("conf", "shape", "seed")}, "budget": e.budget})
+                continue
+            except RC.WorkerFailure as e:
+                if "died" not in str(e) and "exited" not in str(e):
+                    raise
+                store["crashes"].append({"case": {k: c[k] for k in ("conf", "shape", "seed")}, "how": str(e)[:100]})
                 continue
             store["cases"].append(c)
         # equispaced enumeration on the implementation
@@ -560,6 +567,10 @@ def oracle(ctx: Ctx, deep: bool = False):
             ctx.tier = old
     for hg in store["hangs"]:
         yield Violation("call-does-not-return", f"generator call did not return within {hg['budget']} s", {"op": "case", **hg["case"]})
+    for cr in store.get("crashes", []):
+        yield Violation(f"generator-crashes/{cr['case']['conf']['gen']}",
+                        f"the process running {cr['case']['conf']['gen']} died (segmentation fault) instead of returning a mask",
+                        {"op": "case", **cr["case"]})
     magic_dev = 0.0
     worst = {"equi": 0.0, "gauss": 0.0, "poisson": 0.0, "poisson_crop": 0.0, "ktradial": 0.0, "ktradial_crop": 0.0}
     n_opts = {"crop_corner": 0, "tol": 0, "max_attempts": 0, "slopes": 0}
@@ -671,7 +682,7 @@ def replay(rep: dict) -> bool:
             c = {"conf": rep["conf"], "shape": rep["shape"], "seed": rep["seed"], "infeasible_by_design": False}
             try:
                 c["res"] = w.call(MOD, "job_case", {"conf": c["conf"], "shape": c["shape"], "seed": c["seed"]}, budget=60)
-            except RC.Hang:
+            except (RC.Hang, RC.WorkerFailure):
                 return True
             store = {"cases": [c], "hangs": [], "enum": [], "stats": []}
         elif rep.get("op") == "enum":
